@@ -117,6 +117,9 @@ struct Inner {
     order: usize,
     tap: Tap,
     adversary: Option<Box<dyn FnMut(&Sent) -> Actions>>,
+    /// (node, virtual microseconds): a send of that node to an address that is not a node of
+    /// this net takes that long to complete (a slow link), keeping the node's TX slot busy
+    slow_send: Option<(usize, u64)>,
 }
 
 pub struct Net {
@@ -139,6 +142,7 @@ impl Net {
                 order: 0,
                 tap: Tap::default(),
                 adversary: None,
+                slow_send: None,
             }),
         }
     }
@@ -146,6 +150,19 @@ impl Net {
     /// Install the adversary. Without one every datagram is delivered immediately.
     pub fn set_adversary<F: FnMut(&Sent) -> Actions + 'static>(&self, f: F) {
         self.inner.borrow_mut().adversary = Some(Box::new(f));
+    }
+
+    /// Sends of `node` to addresses outside this net take `us` of virtual time to complete.
+    pub fn set_slow_send(&self, node: usize, us: u64) {
+        self.inner.borrow_mut().slow_send = Some((node, us));
+    }
+
+    fn send_delay(&self, node: usize, addr: &Address) -> u64 {
+        let g = self.inner.borrow();
+        match g.slow_send {
+            Some((n, us)) if n == node && !(0..g.nodes.len()).any(|i| node_addr(i) == *addr) => us,
+            _ => 0,
+        }
     }
 
     pub fn clear_adversary(&self) {
@@ -306,6 +323,10 @@ pub struct NetEnd<'a> {
 
 impl NetworkSend for NetEnd<'_> {
     async fn send_to(&mut self, data: &[u8], addr: Address) -> Result<(), Error> {
+        let d = self.net.send_delay(self.node, &addr);
+        if d > 0 {
+            embassy_time::Timer::after(embassy_time::Duration::from_micros(d)).await;
+        }
         self.net.send(self.node, data, addr);
         Ok(())
     }
